@@ -12,6 +12,7 @@ import (
 	"runtime/metrics"
 	"strconv"
 	"strings"
+	"sync"
 	"syscall"
 	"time"
 
@@ -63,7 +64,7 @@ func init() {
 		MinEvals:    floor(100000, 2000000),
 		MinDistinct: floor(20000, 300000),
 		RequiredCells: func(string) []string {
-			cells := []string{"family/a-random", "family/b-mutants", "family/c-signed-malformed", "family/d-bad-key-material", "family/e-hostile-lengths", "family/f-policy-x-data", "bomb/cbor-list", "bomb/cbor-map", "bomb/json-list", "bomb/policy-not", "bomb/signed-deep-args", "bomb/signed-deep-pol", "bomb/selector-long", "bomb/policy-nested-any-failing", "bomb/policy-nested-all-passing", "bomb/policy-nested-and-or-not", "bomb/car-zero-sections", "bomb/cbor-container-empty-entries", "bomb/json-whitespace", "bomb/json-wide-list", "bomb/selector-question-marks", "bomb/signed-wide-args", "bomb/signed-wide-pol", "car-length-sweep", "like-families", "rss-measured", "past-first-layer"}
+			cells := []string{"family/a-random", "family/b-mutants", "family/c-signed-malformed", "family/d-bad-key-material", "family/e-hostile-lengths", "family/f-policy-x-data", "bomb/cbor-list", "bomb/cbor-map", "bomb/json-list", "bomb/policy-not", "bomb/signed-deep-args", "bomb/signed-deep-pol", "bomb/selector-long", "bomb/policy-nested-any-failing", "bomb/policy-nested-all-passing", "bomb/policy-nested-and-or-not", "bomb/car-zero-sections", "bomb/cbor-container-empty-entries", "bomb/json-whitespace", "bomb/json-wide-list", "bomb/selector-question-marks", "bomb/signed-wide-args", "bomb/signed-wide-pol", "car-length-sweep", "like-families", "concurrent-hostile-decoding", "rss-measured", "past-first-layer"}
 			for _, e := range []string{"token.FromSealed", "token.FromDagJson", "delegation.FromSealed", "invocation.FromSealed", "container.FromCbor", "container.FromCar", "container.FromCborBase64", "container.FromCarBase64", "policy.FromDagJson", "policy.FromIPLD", "Policy.Match", "selector.Parse", "Selector.Select", "did.Parse", "DID.PubKey", "args.Add", "literal.Any"} {
 				cells = append(cells, "entry/"+e)
 			}
@@ -131,11 +132,12 @@ var c09MemSamples = [2]metrics.Sample{{Name: "/memory/classes/total:bytes"}, {Na
 var c09RSSDebug = os.Getenv("VERIF_C09_RSSDEBUG") != ""
 
 type c09 struct {
-	w        *mon.W
-	family   string
-	maxInput int
-	bulk     bool // bulk shard: many small inputs in one process
-	bigCalls int
+	w          *mon.W
+	family     string
+	maxInput   int
+	bulk       bool     // bulk shard: many small inputs in one process
+	concurrent [][]byte // hostile tokens replayed from many goroutines at once
+	bigCalls   int
 }
 
 // call runs one entry point on one input under the monitors.
@@ -708,10 +710,53 @@ func c09Bulk(w *mon.W, part, parts int) {
 						if cb, err := ref.EncodeDagCbor(e); err == nil {
 							w.Distinct(cb)
 							c.tokenEntries("principal-"+a.kind, cb, "dagcbor")
+							if f == "iss" && len(c.concurrent) < 400 {
+								c.concurrent = append(c.concurrent, cb)
+							}
 						}
 					}
 				}
 			}
+		}
+	}
+
+	// the same hostile tokens (issuers over invalid key material), decoded by many goroutines at
+	// once - several of them on the same token at overlapping times: a server decodes what peers
+	// send concurrently, and a hostile peer can send the same token twice
+	if len(c.concurrent) > 0 {
+		var mu sync.Mutex
+		var panics []string
+		var wg sync.WaitGroup
+		G := 16
+		decs := c10Decoders()
+		for g := 0; g < G; g++ {
+			g := g
+			wg.Add(1)
+			go func() {
+				defer wg.Done()
+				for round := 0; round < w.Pick(3, 10); round++ {
+					for i := range c.concurrent {
+						in := c.concurrent[(i+g/4)%len(c.concurrent)] // four goroutines share a starting point
+						d := decs[(i+g+round)%len(decs)]
+						if d.codec != "dagcbor" {
+							continue
+						}
+						if pi := mon.Guard(func() { _, _ = d.f(in) }); pi != nil {
+							mu.Lock()
+							if len(panics) < 20 {
+								panics = append(panics, d.name+": "+pi.Value+" @ "+pi.Frame+" input "+mon.Hex(capBytes(in, 600)))
+							}
+							mu.Unlock()
+						}
+					}
+				}
+			}()
+		}
+		wg.Wait()
+		w.Eval(len(c.concurrent) * G)
+		w.Cover("concurrent-hostile-decoding")
+		if len(panics) > 0 {
+			w.Violate("panic/concurrent-decoding/bad-key-material", fmt.Sprintf("decoding hostile tokens (issuer over invalid key material) from %d goroutines at once panics: %s", G, mon.Trunc(panics[0], 300)), map[string]any{"panics": panics, "goroutines": G})
 		}
 	}
 
